@@ -278,13 +278,13 @@ func histStream() *hx.Stream {
 		)
 	}
 	patterns = append(patterns,
-		pat(nil, A, B, A, B),    // alternating
-		pat(nil, B, B, B),       // the same frame three times
-		pat(nil, A, U, A),       // unbounded in between (a documented panic for the containers)
+		pat(nil, A, B, A, B), // alternating
+		pat(nil, B, B, B),    // the same frame three times
+		pat(nil, A, U, A),    // unbounded in between (a documented panic for the containers)
 		pat(nil, A, [2]int{65535, 5}, [2]int{20, 65535}, A),
 		pat(nil, [2]int{1, 1}, [2]int{2, 2}, [2]int{3, 3}, [2]int{7, 7}, A, [2]int{256, 3}), // growing
-		pat(nil, [2]int{256, 3}, A, B, [2]int{2, 2}, [2]int{1, 1}, [2]int{0, 0}),           // shrinking
-		pat([]int{1, 3}, A, A, [2]int{0, 5}, [2]int{0, 5}, A),                              // fields change, constraint repeats
+		pat(nil, [2]int{256, 3}, A, B, [2]int{2, 2}, [2]int{1, 1}, [2]int{0, 0}),            // shrinking
+		pat([]int{1, 3}, A, A, [2]int{0, 5}, [2]int{0, 5}, A),                               // fields change, constraint repeats
 		pat([]int{1, 2, 3}, B, B, B, B),
 	)
 	for _, f := range widgets {
